@@ -107,6 +107,25 @@ def run(ctx: Ctx):
     for p in probs:
         ctx.fail(cons, f.loc(), f"receive_dpr {p}")
         break
+    # ... on exceptional paths too: nothing that can raise on what the peer sent precedes the state
+    # change (an exception there is swallowed by _receive_message and answered 5012: the connection
+    # stays ready, is routed to, and answers are still transmitted behind the peer's DPR)
+    if len(st) == 1:
+        from ..effects import effects_of
+        Ed = effects_of(model)
+        ge = cfg_of(f, effects=Ed)
+        est = [n for n in ge.nodes if n.kind == "stmt" and any(A.dotted(t) == f"{conn}.state" for t in n.stores())]
+        before = ge.reach([ge.entry], blocked=est)
+        PEERDEP = {"AttributeError", "UnicodeDecodeError", "TypeError", "KeyError", "IndexError", "ValueError"}
+        esc = sorted((n for n in before if set(n.raises or ()) & PEERDEP
+                      and any(l in ("exc", "raise") for l, _ in n.succ)), key=lambda n: n.line)
+        ctx.inst(cons + "#raises-first")
+        if esc:
+            ctx.fail(cons + "#raises-first", ge.loc(esc[0]), f"`{esc[0].text(80)}` can raise "
+                     f"({sorted(set(esc[0].raises) & PEERDEP)}) before the connection is put into PEER_DISCONNECTING: "
+                     f"the DPR is answered 5012 by the error handler, the connection remains ready, "
+                     f"requests are routed to it and application answers are transmitted after the DPR "
+                     f"({'; '.join(Ed.why_at(f, sorted(set(esc[0].raises) & PEERDEP)[0], esc[0].line))[:200]})")
     f = nc.methods.get("receive_dpa")
     cons = "Node.receive_dpa"
     ctx.inst(cons)
